@@ -416,6 +416,17 @@ func (c *regexpSimplifyChecker) allChars(e syntax.Expr) bool {
 	return true
 }
 
+// hasClassMeta reports whether any of the chars would get a special meaning inside [].
+func (c *regexpSimplifyChecker) hasClassMeta(e syntax.Expr) bool {
+	for _, a := range e.Args {
+		switch a.Value {
+		case "-", "]", "[", "^":
+			return true
+		}
+	}
+	return false
+}
+
 func (c *regexpSimplifyChecker) factorPrefixSuffix(alt syntax.Expr) bool {
 	// TODO: more forms of prefixes/suffixes?
 	//
@@ -457,7 +468,7 @@ func (c *regexpSimplifyChecker) factorPrefixSuffix(alt syntax.Expr) bool {
 
 func (c *regexpSimplifyChecker) walkAlt(alt syntax.Expr) {
 	// `x|y|z` -> `[xyz]`.
-	if c.allChars(alt) {
+	if c.allChars(alt) && !c.hasClassMeta(alt) {
 		c.score++
 		c.out.WriteString("[")
 		for _, e := range alt.Args {
